@@ -64,6 +64,8 @@ impl SelectionEngine {
         c.connected = conn;
         // age of the last received byte; a held (pulled) link must have been silent >= 250 ms
         let fresh_age = if held { 400 + self.pick(600) } else { self.pick(200) };
+        // a link that is not timed out may be silent for anything up to just under the configured timeout
+        let fresh_age = if !to && self.pick(3) == 0 { (self.timeout_ms - 1 - self.pick(40)).max(fresh_age) } else { fresh_age };
         if conn {
             c.reconnection.connection_established_ms = now - 60_000;
             c.last_received = Some(if to { now - self.timeout_ms - self.pick(3) * 1000 } else { now - fresh_age });
@@ -144,6 +146,8 @@ impl SelectionEngine {
         } else {
             c.verif_set_quality_cache(qc, now - 10_000);
         }
+        // the gate flag left by an earlier pass is arbitrary: it is recomputed by every call
+        c.stall_gated = self.pick(2) == 0;
         // --- stall history: the state AFTER this call's update must be `held`
         c.rtt = RttTracker::default();
         c.last_ack_or_rtt_sample_ms = 0; // no proof: never stalled, pull never escalates
